@@ -36,6 +36,9 @@ impl Out {
 }
 
 pub fn silence_panics() {
+    if std::env::var("QV_SHOW_PANICS").is_ok() {
+        return;
+    }
     std::panic::set_hook(Box::new(|_| {}));
 }
 
